@@ -306,6 +306,45 @@ func init() {
 		}
 	}
 	RegGen("C18", "plus a history whose channels reference 10 001 distinct timestamped streams", genManyStreams)
+	// One quiet timestamped stream (nobody reports it after the first round: carried forward) next to fifteen streams
+	// whose values are new in every round: some 180 distinct aggregate values pass through the instance's outcome
+	// codec while the carried-forward value must stay what it is.
+	RegGen("C18", "plus a history with one carried-forward timestamped aggregate among many aggregates that change every round", func(g *G) {
+		for _, ver := range []uint32{1, 0} {
+			w := newWorld(g)
+			w.f, w.hasPred, w.version, w.interval, w.alias, w.verbose = 1, false, ver, uint64(ver), 0, false
+			w.now = 1_700_000_000_000_000_000
+			streams := []any{J{"sid": "1", "agg": "1"}}
+			for sid := 2; sid <= 16; sid++ {
+				streams = append(streams, J{"sid": S(sid), "agg": "1"})
+			}
+			def := J{"format": "2", "opts": "", "streams": streams}
+			rounds := []any{}
+			for r := 0; r < 14; r++ {
+				w.now += 2_000_000_000
+				obs, honest := []any{}, []any{}
+				for k := 0; k < 4; k++ {
+					vals := []any{}
+					if r == 1 {
+						vals = append(vals, J{"sid": "1", "v": svJ(&llo.TimestampedStreamValue{ObservedAtNanoseconds: 5_000_000 + uint64(k), StreamValue: llo.ToDecimal(decimal.New(4242, -2))})})
+					}
+					if r >= 1 {
+						for sid := 2; sid <= 16; sid++ {
+							vals = append(vals, J{"sid": S(sid), "v": svJ(llo.ToDecimal(decimal.New(int64(100000+r*1000+sid*10+k), -3)))})
+						}
+					}
+					o := J{"retire": false, "attested": "", "ts": S(w.now + uint64(k)), "removes": []any{}, "updates": []any{}, "values": vals}
+					if r == 0 {
+						o["updates"] = []any{J{"id": "1", "def": def}}
+					}
+					obs = append(obs, o)
+					honest = append(honest, k)
+				}
+				rounds = append(rounds, J{"obs": obs, "honest": honest})
+			}
+			g.Emit(J{"op": "llo.history", "cfg": w.cfgJ(), "startSeqNr": 1, "rounds": rounds, "attestations": []any{}}, "history", "carried-forward-among-many-changing")
+		}
+	})
 	// Observations at and just above the limit on stream values.  (a) A correct observer reports exactly the 10 000
 	// values a full channel has, the other correct one and the faulty one a single value: the full observation must
 	// count (dropped, the faulty value would be the median).  (b) One observer sends 10 001 values: whatever the
